@@ -64,3 +64,41 @@ Lemma C05_refuted_by_duplicate_fallback :
   (* revoked 30 s = three revoke-check intervals before the operation *)
   30 * sec > 2 * p_rci pol_nc.
 Proof. repeat split; vm_compute; reflexivity. Qed.
+
+(* Form c of the finding, with RevokeCheckInterval = 0 ("re-validate on every use") and NO fault anywhere.
+   t0: SK(t0), IK_q.  t0+100 s exactly: SK(t0) is at the end of its life, not past it; partition p's first encrypt creates IK_p(t0+100) under it.
+   999999999 ns later (same second, SK(t0) now expired) a cold factory opens p:
+   Op 9:  its Encrypt finds IK_p(t0+100) under an expired system key, creates SK(t0+100) and an intermediate key of the same second, whose
+          insert is refused as a duplicate; the fallback adopts the stored IK_p(t0+100) - under the expired SK(t0) - and caches it.
+   Op 10: the next Encrypt, at the same instant, finds that key in the cache (no time has passed since it was loaded, so even a zero
+          interval has not elapsed), makes no metastore call at all and writes its record under it. *)
+Definition pol_rci0 : policy :=
+  {| p_expire := 100 * sec; p_rci := 0; p_precision := 1 * sec; p_cache_sk := true; p_cache_ik := true; p_shared_ik := false;
+     p_sk_pol := simple_pol; p_ik_pol := simple_pol; p_cache_sessions := false; p_sess_cap := 1000; p_sess_dur := 7200 * sec; p_sess_kind := Generic.Slru |}.
+Definition witness_dup_c : list hop :=
+  [ HNewFactory pol_rci0 (s "svc") (s "prod") None;
+    HGetSession 0 (s "q"); HEncrypt 0 1 [];
+    HAdvance (100 * sec);
+    HGetSession 0 (s "p"); HEncrypt 1 2 [];
+    HAdvance (sec - 1);
+    HNewFactory pol_rci0 (s "svc") (s "prod") None;
+    HGetSession 1 (s "p");
+    HEncrypt 2 3 [];
+    HEncrypt 2 4 [] ].
+
+Definition no_metastore_event (ev : list event) : bool :=
+  forallb (fun e => match e with EvMLoad _ _ _ | EvMLoadLatest _ _ | EvMStore _ _ _ _ => false | _ => true end) ev.
+Definition refused_ik_insert_at (c : Z) (ev : list event) : bool :=
+  existsb (fun e => match e with EvMStore i c' _ StFalse => str_eqb i ik_p && (c' =? c) | _ => false end) ev.
+
+Lemma C04_refuted_by_cached_duplicate_fallback :
+  (* op 9 went through the duplicate fallback and op 10 wrote its record under IK_p(t0+100) ... *)
+  option_map (fun x => refused_ik_insert_at (t0 / sec + 100) (snd x)) (nth_error (fst (hrun (hinit t0) witness_dup_c)) 9) = Some true /\
+  nth_enc_parent 10 witness_dup_c = Some (t0 / sec + 100) /\
+  (* ... out of the cache, without any metastore call ... *)
+  option_map (fun x => no_metastore_event (snd x)) (nth_error (fst (hrun (hinit t0) witness_dup_c)) 10) = Some true /\
+  (* ... although that key's parent is SK(t0) ... *)
+  row_parent (w_store (h_world (snd (hrun (hinit t0) witness_dup_c)))) ik_p (t0 / sec + 100) = Some (t0 / sec) /\
+  (* ... which is expired at that time, one (zero-length) interval included; and no operation of the history was faulted *)
+  is_key_expired (t0 + 100 * sec + (sec - 1) - p_rci pol_rci0) (t0 / sec) (p_expire pol_rci0) = true.
+Proof. repeat split; vm_compute; reflexivity. Qed.
